@@ -34,6 +34,10 @@ class BiasedRandom(_random.Random):
         self._rate = rate
         self._last = 0.5
         self.fired = 0
+        # "stuck" stretches: for a while every integer draw comes from a tiny set,
+        # which starves rejection/collection loops and pushes them into their fallbacks
+        self._stuck_left = 0
+        self._stuck_vals = (0,)
 
     def random(self):
         b = self._bias.random()
@@ -52,7 +56,14 @@ class BiasedRandom(_random.Random):
         return v
 
     def getrandbits(self, k):
+        if self._stuck_left > 0 and k > 0:
+            self._stuck_left -= 1
+            self.fired += 1
+            return self._bias.choice(self._stuck_vals) & ((1 << k) - 1)
         b = self._bias.random()
+        if b < self._rate / 20 and k > 0:
+            self._stuck_left = self._bias.choice([20, 60, 350, 1200])
+            self._stuck_vals = tuple(self._bias.randrange(32) for _ in range(self._bias.choice([1, 2, 3])))
         if b < self._rate and k > 0:
             self.fired += 1
             c = self._bias.randrange(3)
